@@ -168,14 +168,15 @@ props["C12"] = {
     "explanation": "pretty.rs is a 4,500-line combinator printer over an external layout library; it is not modelled, so totality and meaning preservation are decided by search with an exact oracle (desugared structure equal), not by a theorem. Kernel-checked: the one place where the printer invents text rather than copying tokens - string literal spelling - round-trips through the lexer's reader for every string (this is the defect repaired by fix: 9aa2731 and 69bbb8b, found by this check).",
     "trusted_base": [KERNEL, AXIOMS, HARNESS,
                      "modelled, not verified: PrettyFormatter::string_literal / Display for Meta strings and escape::apply_string_escapes + the StrLit token regex are mirrored by ZV/Model/Escape.lean and compared on every run",
-                     "NOT modelled: the layout algebra (boundaries, guards, RcDoc::fail), parenthesis elision by grammar context, punning, directive scoping - only the search can exhibit a failure there",
+                     "modelled, not verified: the grammar's child levels (parser.lalrpop under lalrpop 0.23.1's #[assoc] substitution), the formatter's requirement at every child position (pretty.rs) and context.rs's classes / accepts are transcribed into ZV/Model/Grouping.lean and compared with the real parser and formatter exhaustively over the finite table (43 positions x 41 children) and on random trees on every run; trusted there: the LALR(1) grammar is unambiguous (lalrpop's construction succeeds when /repo builds), so the text of a derivation parses back to it",
+                     "NOT modelled: the layout algebra (boundaries, guards, RcDoc::fail), patterns, punning, telescope merging, directive scoping - only the search can exhibit a failure there",
                      "the meaning oracle trusts the repository's parser and desugarer (both sides of the comparison go through them)"],
     "assumptions": ["a formatter call that has not returned after 30 s is reported as not terminating"],
 }
 props["C12"]["manifest"] = {
-    "text": "Partial by nature: the printer is not modelled. Every maintained source and thousands of white-space / comment / directive variants are formatted; the output must parse and desugar to the identical structure, an unparseable file must be left untouched, and the CLI must write exactly the rendered text; any panic, hang, parse failure or structural difference is a violation with the input as replay. String literal spelling (where the printer does not copy tokens) is proved to round-trip for every string in Lean and compared with the real printer and reader. Defects found on the pinned tree: two fixed (string spelling), three recorded as known findings (render failure on comments in unconventional gaps, exponential layout search at narrow widths, line comment glued to the preceding token).",
-    "note": "Level `other`: search with exact oracles, plus one kernel-checked slice. Trusted: harness, the repository's parser/desugarer as the meaning oracle.",
-    "technique": "failing-input search over corpus variants and directive combinations with reparse + desugared-structure oracle and CLI file oracle; Lean theorem + correspondence for string literal spelling",
+    "text": "Partial by nature: the layout engine is not modelled. Every maintained source and thousands of white-space / comment / directive variants are formatted; the output must parse and desugar to the identical structure, an unparseable file must be left untouched, and the CLI must write exactly the rendered text; any panic, hang, parse failure or structural difference is a violation with the input as replay. String literal spelling (where the printer does not copy tokens) is proved to round-trip for every string in Lean and compared with the real printer and reader. Which redundant parentheses are dropped is modelled (grammar levels, formatter requirements, acceptance): for every requirement table within the grammar's and every layout decision the printed tree is a derivation of the grammar with the same parenthesis-free tree (theorem), the real tables satisfy the hypothesis (theorem over the transcribed tables), and both tables are compared with the real parser and formatter exhaustively on every run. Defects found on the pinned tree: several fixed (string spelling, existential parameters, a comment glued to a constructor name), three recorded as known findings (render failure on comments in unconventional gaps, exponential layout search at narrow widths, nested existential parentheses).",
+    "note": "Level `other`: search with exact oracles, plus two kernel-checked slices (string literal spelling; grouping elision). Trusted: harness, the repository's parser/desugarer as the meaning oracle.",
+    "technique": "failing-input search over corpus variants and directive combinations with reparse + desugared-structure oracle and CLI file oracle; Lean theorems + correspondence for string literal spelling and for the elision of redundant parentheses (grammar table and requirement table, exhaustive)",
 }
 
 props["C13"] = {
